@@ -1037,6 +1037,40 @@ def late_starts(obs):
     return late
 
 
+def bad_cowins(obs):
+    """Region of the open finding `cowin-after-abort-in-conflict`: action uids that took part in a step of the unpatched
+    `_resolve_action_conflicts` which the repaired behaviour (and the model) excludes —
+    (1) a head adopts (co-wins onto) an action that is no longer STARTING: the winner's flow was aborted by a losing
+        flow earlier in the same loop and its action was stopped again;
+    (2) the adopting head belongs to a flow that is no longer listening (aborted earlier in the same loop);
+    (3) a `Start…` event is emitted for an action that no listening flow holds (a head of a flow that was aborted while
+        an earlier loop group was resolved wins its group)."""
+    bad = set()
+    recs = obs.get("records", [])
+    for i in range(len(recs) - 1):
+        a, b = recs[i], recs[i + 1]
+        if a.get("post") is None or a.get("exc") or b.get("seq") != a.get("seq", -1) + 1:
+            continue
+        pf = {f["uid"]: f for f in a["post"]["flows"]}
+        pa = {x["uid"]: x for x in a["post"]["actions"]}
+        na = {x["uid"] for x in b["pre"]["actions"]}
+        for f in b["pre"]["flows"]:
+            old = pf.get(f["uid"])
+            if not old:
+                continue
+            for o, n in zip(old["actions"], f["actions"]):
+                if o != n and o not in na and n in pa:
+                    if pa[n]["status"] != "STARTING" or old["status"] not in _LISTENING:
+                        bad.add(n)
+    for r in recs:
+        if r["op"] == "update" and r["ev"]["start"] and not r["ev"]["started"] and r["ev"]["auid"] is not None:
+            au = r["ev"]["auid"]
+            if any(x["uid"] == au for x in r["pre"]["actions"]) and \
+                    not any(au in f["actions"] and f["status"] in _LISTENING for f in r["pre"]["flows"]):
+                bad.add(au)
+    return bad
+
+
 def _has_child_cycle(flows):
     ch = {f["uid"]: [c for c in f["children"]] for f in flows}
     state = {}
@@ -1058,6 +1092,12 @@ def signature(case, obs, msg):
         return None
     if ("RecursionError" in msg or "ValueError" in msg) and any(_has_child_cycle(s.get("flows", [])) for s in obs.get("steps", [])):
         return "activation-cycle-recursion"
+    bad = bad_cowins(obs)
+    if bad:
+        if msg.startswith("trace is not a path of the operation-sequence semantics") and "coWin" in msg:
+            return "cowin-after-abort-in-conflict"
+        if ("second Stop" in msg or "got no Stop" in msg) and any(a in msg for a in bad):
+            return "cowin-after-abort-in-conflict"
     late = late_starts(obs)
     if not late:
         return None
